@@ -120,6 +120,9 @@ func (k Keeper) convertCoinNativeCoin(
 	erc20 := erc20contracts.ERC20MinterBurnerDecimalsContract.ABI
 	contract := pair.GetERC20Contract()
 	balanceToken := k.balanceOf(ctx, erc20, contract, receiver)
+	if balanceToken == nil {
+		return nil, sdkerrors.Wrap(types.ErrBalanceInvariance, "failed to retrieve the token balance")
+	}
 
 	// Escrow Coins on module account
 	if err := k.bankKeeper.SendCoinsFromAccountToModule(ctx, sender, types.ModuleName, coins); err != nil {
@@ -134,6 +137,9 @@ func (k Keeper) convertCoinNativeCoin(
 	// Check expected Receiver balance after transfer execution
 	tokens := msg.Coin.Amount.BigInt()
 	balanceTokenAfter := k.balanceOf(ctx, erc20, contract, receiver)
+	if balanceTokenAfter == nil {
+		return nil, sdkerrors.Wrap(types.ErrBalanceInvariance, "failed to retrieve the token balance")
+	}
 	exp := big.NewInt(0).Add(balanceToken, tokens)
 
 	if r := balanceTokenAfter.Cmp(exp); r != 0 {
@@ -179,6 +185,9 @@ func (k Keeper) convertERC20NativeCoin(
 	contract := pair.GetERC20Contract()
 	balanceCoin := k.bankKeeper.GetBalance(ctx, receiver, msg.Denom)
 	balanceToken := k.balanceOf(ctx, erc20, contract, sender)
+	if balanceToken == nil {
+		return nil, sdkerrors.Wrap(types.ErrBalanceInvariance, "failed to retrieve the token balance")
+	}
 
 	// Burn escrowed tokens
 	if _, err := k.CallEVM(ctx, erc20, types.ModuleAddress, contract, "burnCoins", sender, msg.Amount.BigInt()); err != nil {
@@ -204,6 +213,9 @@ func (k Keeper) convertERC20NativeCoin(
 	// Check expected Sender balance after transfer execution
 	tokens := coins[0].Amount.BigInt()
 	balanceTokenAfter := k.balanceOf(ctx, erc20, contract, sender)
+	if balanceTokenAfter == nil {
+		return nil, sdkerrors.Wrap(types.ErrBalanceInvariance, "failed to retrieve the token balance")
+	}
 	expToken := big.NewInt(0).Sub(balanceToken, tokens)
 
 	if r := balanceTokenAfter.Cmp(expToken); r != 0 {
@@ -250,6 +262,9 @@ func (k Keeper) convertERC20NativeToken(
 	contract := pair.GetERC20Contract()
 	balanceCoin := k.bankKeeper.GetBalance(ctx, receiver, msg.Denom)
 	balanceToken := k.balanceOf(ctx, erc20, contract, types.ModuleAddress)
+	if balanceToken == nil {
+		return nil, sdkerrors.Wrap(types.ErrBalanceInvariance, "failed to retrieve the token balance")
+	}
 
 	// Escrow tokens on module account
 	transferData, err := erc20.Pack("transfer", types.ModuleAddress, msg.Amount.BigInt())
@@ -273,6 +288,9 @@ func (k Keeper) convertERC20NativeToken(
 	// Check expected escrow balance after transfer execution
 	tokens := coins[0].Amount.BigInt()
 	balanceTokenAfter := k.balanceOf(ctx, erc20, contract, types.ModuleAddress)
+	if balanceTokenAfter == nil {
+		return nil, sdkerrors.Wrap(types.ErrBalanceInvariance, "failed to retrieve the token balance")
+	}
 	expToken := big.NewInt(0).Add(balanceToken, tokens)
 
 	if r := balanceTokenAfter.Cmp(expToken); r != 0 {
@@ -346,6 +364,9 @@ func (k Keeper) convertCoinNativeERC20(
 	erc20 := erc20contracts.ERC20MinterBurnerDecimalsContract.ABI
 	contract := pair.GetERC20Contract()
 	balanceToken := k.balanceOf(ctx, erc20, contract, receiver)
+	if balanceToken == nil {
+		return nil, sdkerrors.Wrap(types.ErrBalanceInvariance, "failed to retrieve the token balance")
+	}
 
 	// Escrow Coins on module account
 	if err := k.bankKeeper.SendCoinsFromAccountToModule(ctx, sender, types.ModuleName, coins); err != nil {
@@ -371,6 +392,9 @@ func (k Keeper) convertCoinNativeERC20(
 	// Check expected Receiver balance after transfer execution
 	tokens := msg.Coin.Amount.BigInt()
 	balanceTokenAfter := k.balanceOf(ctx, erc20, contract, receiver)
+	if balanceTokenAfter == nil {
+		return nil, sdkerrors.Wrap(types.ErrBalanceInvariance, "failed to retrieve the token balance")
+	}
 	exp := big.NewInt(0).Add(balanceToken, tokens)
 
 	if r := balanceTokenAfter.Cmp(exp); r != 0 {
